@@ -150,6 +150,11 @@ class BufferHarness:
                 n = ninv[0]
                 emit('fstart', n, frozenset(unreal(a) for a in args))
                 try:
+                    if box.get('shutting_down'):
+                        # an invocation begun once the loop is being shut down waits for something that will not
+                        # arrive any more (a reply over a connection already closed, say); only cancellation ends it
+                        emit('fhang', n)
+                        await aio.get_running_loop().create_future()
                     if cfg['fdur']:
                         await aio.sleep(cfg['fdur'])
                     if (n - 1) in cfg['fails']:
